@@ -4,7 +4,7 @@ import itertools
 import numpy as np
 import torch
 
-from _lib import handler, arr, num, close, patched, gram_to_matrix, dist_to_matrix, t64, expect_value_error, HANDLERS, FixedStream
+from _lib import handler, arr, num, close, patched, gram_to_matrix, dist_to_matrix, t64, expect_value_error, HANDLERS, FixedStream, scale_ladder
 
 
 def qp_reference(P, u):
@@ -118,16 +118,17 @@ def r_kkt(c):
 
 @handler("row_perm")
 def r_row_perm(c):
-    J = gram_to_matrix(c["G"])
     perm = [int(i) for i in c["perm"]]
-    m = J.shape[0]
     vec = c.get("vec")
-    A1 = make_agg(c["agg"], m, c.get("params"), vec)
-    A2 = make_agg(c["agg"], m, c.get("params"), None if vec is None else [vec[perm[i]] for i in range(m)])
-    o1 = A1(t64(J)).numpy()
-    o2 = A2(t64(J[perm])).numpy()
-    tol = 1e-4 if c["agg"] in ("cagrad",) else 1e-6
-    return dict(reproduced=not close(o1, o2, tol, scale=np.abs(J).max()), out=o1.tolist(), out_permuted=o2.tolist())
+    def run(J):
+        m = J.shape[0]
+        A1 = make_agg(c["agg"], m, c.get("params"), vec)
+        A2 = make_agg(c["agg"], m, c.get("params"), None if vec is None else [vec[perm[i]] for i in range(m)])
+        o1 = A1(t64(J)).numpy()
+        o2 = A2(t64(J[perm])).numpy()
+        tol = 1e-4 if c["agg"] in ("cagrad",) else 1e-6
+        return dict(reproduced=not close(o1, o2, tol, scale=np.abs(J).max()), out=o1.tolist(), out_permuted=o2.tolist(), J=J.tolist())
+    return scale_ladder(run, gram_to_matrix(c["G"]))
 
 
 @handler("row_perm_entry")
@@ -143,6 +144,14 @@ def r_row_perm_entry(c):
         A1 = make_agg("config", m, None, vec)
         A2 = make_agg("config", m, None, None if vec is None else [vec[perm[i]] for i in range(m)])
         o1, o2 = A1(t64(J)).numpy(), A2(t64(J[perm])).numpy()
+        # ConFIG normalises pinv(units) @ weights; where that vector is exactly 0 the code returns 0, and in floating point the rounding residue
+        # of the pseudo-inverse is normalised instead: a 0/0 point of the definition, decided by rounding - no witness for anything
+        nr = np.linalg.norm(J, axis=1)
+        units = np.where(nr[:, None] > 0, J / np.where(nr > 0, nr, 1.0)[:, None], 0.0)
+        wv = np.ones(m) if vec is None else np.asarray(arr(vec), dtype=float)
+        P = np.linalg.pinv(units)
+        if np.linalg.norm(P @ wv) <= 1e-9 * np.linalg.norm(P, 2) * max(np.linalg.norm(wv), 1e-300):
+            return dict(reproduced=False, degenerate="pinv(units) @ weights is 0: the direction is 0/0", out=o1.tolist(), out_permuted=o2.tolist())
     else:  # graddrop under a fixed stream
         fs = FixedStream(np.asarray(arr(c["U"]), dtype=float))
         leak = c.get("leak")
@@ -233,16 +242,18 @@ def r_impartial(c):
             bad.append("length is not the sum of the projections")
         return dict(reproduced=bool(bad), why=bad, out=out.tolist())
     if agg == "alignedmtl":
-        J = gram_to_matrix(c["G"])
-        m = J.shape[0]
         pref = c.get("pref")
-        A = make_agg("alignedmtl", m, None, pref)
-        out = A(t64(J)).numpy()
-        u = np.asarray(arr(pref), dtype=float) if pref is not None else np.ones(m) / m
-        lam, V = np.linalg.eigh(J @ J.T)
-        Bm = np.sqrt(lam.min()) * V @ np.diag(1 / np.sqrt(lam)) @ V.T
-        ref = (Bm @ u) @ J
-        return dict(reproduced=not close(out, ref, 1e-5), out=out.tolist(), reference=ref.tolist())
+        def run(J):
+            m = J.shape[0]
+            A = make_agg("alignedmtl", m, None, pref)
+            out = A(t64(J)).numpy()
+            u = np.asarray(arr(pref), dtype=float) if pref is not None else np.ones(m) / m
+            lam, V = np.linalg.eigh(J @ J.T)
+            Bm = np.sqrt(lam.min()) * V @ np.diag(1 / np.sqrt(lam)) @ V.T
+            ref = (Bm @ u) @ J
+            sc = np.abs(J).max() * max(1.0, np.abs(u).max())
+            return dict(reproduced=not close(out, ref, 1e-5, scale=sc), out=out.tolist(), reference=ref.tolist(), J=J.tolist())
+        return scale_ladder(run, gram_to_matrix(c["G"]))
     raise KeyError(agg)
 
 
